@@ -6,6 +6,7 @@ from gen import sercomm as gen_sercomm
 ID = "C06"
 LEVEL = "proof"
 LEAN_MODULES = ["OsmoVerif.Props.C06"]
+DRIVER_MODULES = ["Sercomm"]
 LEAN_MODEL_MODULES = ["OsmoVerif.Model.Sercomm", "OsmoVerif.Spec.Sercomm", "OsmoVerif.Lemmas.Sercomm"]
 ASSUMPTIONS = [
     "theorems are about OsmoVerif.Model.Sercomm: a hand model of sercomm_sendmsg, sercomm_drv_pull (priority dequeue loop, flag insertion, in-place escaping, tx.state), sercomm_register_rx_cb, dispatch_rx_msg, sercomm_drv_rx_char (tailroom check first, five states, un-escaping, re-allocation) and the msgb operations they use; the wire between transmitter and receiver is loss-free and in order (each pulled octet is fed to the receiver)",
